@@ -171,6 +171,7 @@ pub fn gen_world(rng: &mut Rng, p: &GenParams) -> WorldSpec {
         lock_host: None,
         default_ports: 0,
         omit_max_retained: false,
+        sha256_repo: false,
     }
 }
 
